@@ -107,7 +107,7 @@ func ProfileOpts(p string) RandomOpts {
 	case "collision": // C01, C02: third parties re-own / create between reconciles
 		return RandomOpts{EnvProb: 0.35, EnvBudget: 6, AllowReown: true, Settle: true}
 	case "teardown": // C04, C05
-		return RandomOpts{EnvProb: 0.3, EnvBudget: 6, AllowReown: true, AllowCRDelete: true, AllowArchive: true, AllowOrphan: true, Crashes: 1, Settle: true}
+		return RandomOpts{EnvProb: 0.3, EnvBudget: 6, AllowReown: true, AllowCRDelete: true, AllowArchive: true, AllowOrphan: true, Crashes: 1, Faults: 2, Settle: true}
 	case "pause": // C09
 		return RandomOpts{EnvProb: 0.4, EnvBudget: 8, AllowPause: true, AllowReown: true, Settle: true}
 	case "handover": // C02: revisions paused / archived / deleted mid-handover, no third-party ownership edits
